@@ -2,8 +2,8 @@
    boolean (Model/Constraints.v): every successful run of the former IS a run of the latter (so every theorem of the form
    "constrained_cp ... = Ok fs -> ..." holds of it, whatever the criterion), a known criterion never adds a raise, and an unknown
    criterion raises exactly when it is reached: truthy tol_outer, second sweep done, constraint error not below the tolerance. *)
-From Coq Require Import List Arith Bool Lia.
-From TLV Require Import Base.PyList Base.Tensor Model.Constraints Model.ConstraintsStop.
+From Coq Require Import List Arith Bool Lia Reals Lra.
+From TLV Require Import Base.PyList Base.Tensor Base.Ops Model.Constraints Model.ConstraintsStop.
 Import ListNotations.
 
 Section Stop.
@@ -94,3 +94,84 @@ Section Stop.
     destruct it; [lia|]. reflexivity.
   Qed.
 End Stop.
+
+(* ---- the stopping rule with its three comparisons as real numbers (Model/ConstraintsStop.v stop_env_num at Rops): what exactly makes the
+   loop stop after sweep `it`, and what makes it raise *)
+Section StopNumR.
+  Context {M : Type}.
+  Open Scope R_scope.
+  Variables (tol : R) (c : crit) (cerr err : nat -> R).
+  Local Notation S := (stop_env_num (M := M) Rops tol c cerr err).
+
+  Lemma fabs_Rabs x : fabs Rops x = Rabs x.
+  Proof. unfold fabs, Rabs. cbn. unfold Rleb. destruct (Rle_dec 0 x), (Rcase_abs x); lra. Qed.
+  Lemma fltb_R a b : fltb Rops a b = true <-> a < b.
+  Proof. unfold fltb. cbn. unfold Rleb. destruct (Rle_dec b a); cbn; split; intros; try lra; try discriminate; try reflexivity. Qed.
+  Lemma fltb_R_false a b : fltb Rops a b = false <-> b <= a.
+  Proof. unfold fltb. cbn. unfold Rleb. destruct (Rle_dec b a); cbn; split; intros; try lra; try discriminate; try reflexivity. Qed.
+  Lemma f_truthy_R x : f_truthy Rops x = true <-> x <> 0.
+  Proof. unfold f_truthy. cbn. unfold Rleb. destruct (Rle_dec x 0), (Rle_dec 0 x); cbn; split; intros; try lra; try discriminate; reflexivity. Qed.
+
+  (* the loop stops after sweep `it` IFF tol_outer is non-zero, it is not the first sweep, and the constraint error is below the tolerance
+     or the criterion in force is: |decrease| < tol ('abs_rec_error'), decrease < tol ('rec_error') *)
+  Theorem stop_num_true it (fs du : list M) :
+    stop_at S it fs du = Ok true <->
+    tol <> 0 /\ (1 <= it)%nat /\
+    (cerr it < tol \/ (cerr it >= tol /\
+       ((c = CrAbsRecError /\ Rabs (err (it - 1) - err it) < tol) \/ (c = CrRecError /\ err (it - 1) - err it < tol)))).
+  Proof.
+    unfold stop_at, stop_rule. cbn [s_tol s_crit s_cerr s_dabs s_drel stop_env_num]. unfold decrease. cbn [fsub Rops].
+    rewrite fabs_Rabs.
+    destruct (f_truthy Rops tol) eqn:T; cbn [andb].
+    2:{ split; [discriminate|]. intros (H & _). apply f_truthy_R in H. congruence. }
+    apply f_truthy_R in T.
+    destruct (1 <=? it)%nat eqn:I.
+    2:{ split; [discriminate|]. intros (_ & H & _). apply Nat.leb_le in H. congruence. }
+    apply Nat.leb_le in I.
+    destruct (fltb Rops (cerr it) tol) eqn:Ce.
+    { apply fltb_R in Ce. split; [intros _; repeat split; auto|reflexivity]. }
+    apply fltb_R_false in Ce.
+    destruct c.
+    - destruct (fltb Rops (Rabs (err (it - 1) - err it)) tol) eqn:D.
+      + apply fltb_R in D. split; [intros _|reflexivity]. split; [exact T|]. split; [exact I|]. right. split; [lra|]. left. auto.
+      + apply fltb_R_false in D. split; [discriminate|]. intros (_ & _ & [H | (_ & [(_ & H) | (H & _)])]); try lra; discriminate H.
+    - destruct (fltb Rops (err (it - 1) - err it) tol) eqn:D.
+      + apply fltb_R in D. split; [intros _|reflexivity]. split; [exact T|]. split; [exact I|]. right. split; [lra|]. right. auto.
+      + apply fltb_R_false in D. split; [discriminate|]. intros (_ & _ & [H | (_ & [(H & _) | (_ & H)])]); try lra; discriminate H.
+    - split; [discriminate|]. intros (_ & _ & [H | (_ & [(H & _) | (H & _)])]); try lra; discriminate H.
+  Qed.
+
+  (* it raises (TypeError: unknown criterion) IFF tol_outer is non-zero, it is not the first sweep, the constraint error is NOT below the
+     tolerance and the criterion is neither 'abs_rec_error' nor 'rec_error' *)
+  Theorem stop_num_err it (fs du : list M) :
+    stop_at S it fs du = Err <-> tol <> 0 /\ (1 <= it)%nat /\ tol <= cerr it /\ c = CrUnknown.
+  Proof.
+    unfold stop_at, stop_rule. cbn [s_tol s_crit s_cerr s_dabs s_drel stop_env_num].
+    destruct (f_truthy Rops tol) eqn:T; cbn [andb].
+    2:{ split; [discriminate|]. intros (H & _). apply f_truthy_R in H. congruence. }
+    apply f_truthy_R in T.
+    destruct (1 <=? it)%nat eqn:I.
+    2:{ split; [discriminate|]. intros (_ & H & _). apply Nat.leb_le in H. congruence. }
+    apply Nat.leb_le in I.
+    destruct (fltb Rops (cerr it) tol) eqn:Ce.
+    { apply fltb_R in Ce. split; [discriminate|]. intros (_ & _ & H & _). lra. }
+    apply fltb_R_false in Ce.
+    destruct c; (split; [try discriminate; intros _; repeat split; auto | try reflexivity; intros (_ & _ & _ & H); discriminate H]).
+  Qed.
+
+  (* consequences worth knowing: with 'rec_error' and a positive tolerance a sweep that does NOT decrease the error stops the loop;
+     with a negative tolerance (truthy!) 'abs_rec_error' and the constraint error can never stop it when the constraint error is >= 0 *)
+  Theorem rec_error_stops_on_increase it (fs du : list M) :
+    c = CrRecError -> 0 < tol -> (1 <= it)%nat -> err (it - 1) <= err it -> stop_at S it fs du = Ok true.
+  Proof.
+    intros Hc Ht Hi He. apply stop_num_true. split; [lra|]. split; [exact Hi|].
+    destruct (Rlt_dec (cerr it) tol) as [L|L]; [left; exact L|]. right. split; [lra|]. right. split; [exact Hc|]. lra.
+  Qed.
+  Theorem negative_tolerance_never_stops_abs it (fs du : list M) :
+    c = CrAbsRecError -> tol < 0 -> 0 <= cerr it -> stop_at S it fs du = Ok false.
+  Proof.
+    intros Hc Ht Hce. destruct (stop_at S it fs du) as [[|]|] eqn:H; [| reflexivity |].
+    - apply stop_num_true in H. destruct H as (_ & _ & [H | (_ & [(_ & H) | (H & _)])]); [lra | pose proof (Rabs_pos (err (it - 1) - err it)); lra | congruence].
+    - apply stop_num_err in H. destruct H as (_ & _ & _ & H). congruence.
+  Qed.
+End StopNumR.
